@@ -69,20 +69,20 @@ fn pending_any(len: usize) {
 //@h id=pending_any_bytes_3 props=C20,C08,C04 tier=quick build=dev-eu868 cost=60 timeout=1500
 //@bounds pending queue of exactly 3 arbitrary bytes (as a restored session may hold): Uplink::clear_mac_commands(true) neither panics nor grows the queue
 //@encodes Uplink::clear_mac_commands, parse_uplink_mac_commands, UplinkMacCommand::parse_one
-//@out other queue lengths in the quick tier (thorough tier: 6 bytes); longer queues only compositionally (see the comment below)
+//@out other queue lengths in the quick tier (thorough tier: 4 bytes); longer queues only compositionally (see the comment below)
 #[kani::proof]
 #[kani::unwind(6)] // at most 3 commands, copies of at most 3 bytes
 fn pending_any_bytes_3() {
     pending_any(3);
 }
-//@h id=pending_any_bytes_6 props=C20,C08,C04 tier=thorough build=dev-eu868 cost=300 timeout=3600
-//@bounds pending queue of exactly 6 arbitrary bytes
+//@h id=pending_any_bytes_4 props=C20,C08,C04 tier=thorough build=dev-eu868 cost=300 timeout=3600
+//@bounds pending queue of exactly 4 arbitrary bytes
 #[kani::proof]
-#[kani::unwind(9)] // at most 6 commands, copies of at most 6 bytes
-fn pending_any_bytes_6() {
-    pending_any(6);
+#[kani::unwind(7)] // at most 4 commands, copies of at most 4 bytes
+fn pending_any_bytes_4() {
+    pending_any(4);
 }
-// Queues of 9 and 15 arbitrary bytes needed > 17 GB / > 25 min (the iterator chain is unrolled once
+// Queues of 6, 9 and 15 arbitrary bytes needed > 16 GB / > 10..25 min (the iterator chain is unrolled once
 // per possible command with every CID symbolic).  Longer queues are covered compositionally:
 // iterator_step_uplink (C03) shows that every yielded command lies inside the input and consumes
 // at least one byte, so the retained bytes are disjoint pieces of at most 15 input bytes, and
